@@ -173,13 +173,17 @@ pub struct RunOpts {
     pub lockstep: bool,
     /// every K-th command (0: none) arrives in two reads: its 4-byte header, then the rest
     pub cut_every: usize,
+    /// exactly one command arrives in two reads (header, then the rest): the first command of at
+    /// least 300 bytes behind the tenth; everything else arrives whole. (A periodic disturbance
+    /// keeps overwriting single-slot state; a wrap needs one disturbance and 2^16 quiet steps.)
+    pub cut_once: bool,
     /// the shim answers with resultsets of varying shape (text and binary rows, an occasional
     /// 5000-byte row, chained sets) instead of bare completions
     pub rich: bool,
 }
 impl Default for RunOpts {
     fn default() -> Self {
-        RunOpts { seq_stride: 0, uniform_read: usize::MAX, write_cap: usize::MAX, lockstep: false, cut_every: 0, rich: false }
+        RunOpts { seq_stride: 0, uniform_read: usize::MAX, write_cap: usize::MAX, lockstep: false, cut_every: 0, cut_once: false, rich: false }
     }
 }
 
@@ -229,7 +233,12 @@ pub fn run_payloads_opts(payloads: &[Vec<u8>], ignores: &[u8], opts: &RunOpts, s
     let conv = Conv::new(cmds);
     let s = conv.stream();
     let stream = Arc::new(s.bytes);
-    let cuts: Vec<usize> = if opts.cut_every == 0 { vec![] } else { (0..n_cmds).filter(|k| k % opts.cut_every == opts.cut_every - 1).map(|k| s.ends[k] + 4).collect() };
+    let mut cuts: Vec<usize> = if opts.cut_every == 0 { vec![] } else { (0..n_cmds).filter(|k| k % opts.cut_every == opts.cut_every - 1).map(|k| s.ends[k] + 4).collect() };
+    if opts.cut_once {
+        if let Some(k) = (10..n_cmds).find(|k| payloads[*k].len() >= 300) {
+            cuts.push(s.ends[k] + 4);
+        }
+    }
     let mut sim = sim_for(&stream, cuts);
     sim.log_ops = false;
     sim.uniform_read = opts.uniform_read;
